@@ -161,8 +161,8 @@ class Inliner:
         e = None
         if isinstance(s, ast.Expr):
             e = s.value
-        elif isinstance(s, ast.Assign) and len(s.targets) == 1 and isinstance(s.targets[0], ast.Name):
-            e = s.value
+        elif isinstance(s, ast.Assign) and len(s.targets) == 1:
+            e = s.value  # the right-hand side is evaluated before the target's sub-expressions
         elif isinstance(s, ast.AnnAssign) and isinstance(s.target, ast.Name) and s.value is not None:
             e = s.value
         elif isinstance(s, ast.Return) and s.value is not None:
